@@ -517,6 +517,13 @@ type ReqRun struct {
 
 func (r *ReqRun) Closed() bool { return r.PDone && r.EDone }
 
+// CancelByCaller cancels the context the request was issued with
+func (r *ReqRun) CancelByCaller() {
+	if r.cancelFn != nil {
+		r.cancelFn()
+	}
+}
+
 type Sim struct {
 	W      *World
 	Ctx    context.Context
